@@ -98,6 +98,7 @@ pub trait Job {
 #[derive(Default, Debug, Clone)]
 pub struct Outcome {
     pub violations: Vec<Violation>,
+    pub others: Vec<Violation>,
     pub stats: sim::Stats,
     pub probes: BTreeMap<&'static str, u64>,
     pub faults: BTreeMap<&'static str, u64>,
@@ -113,6 +114,11 @@ pub struct Outcome {
 struct Slot {
     job: Rc<dyn Job>,
     replay: Option<Vec<u32>>,
+}
+/// the property this process decides ("" = every violation aborts the run)
+static CHECK_PROPERTY: std::sync::Mutex<&'static str> = std::sync::Mutex::new("");
+pub fn set_check_property(p: &str) {
+    *CHECK_PROPERTY.lock().unwrap() = Box::leak(p.to_string().into_boxed_str());
 }
 thread_local! {
     static CURRENT: RefCell<Option<Rc<dyn Job>>> = const { RefCell::new(None) };
@@ -150,12 +156,14 @@ impl Scheduler for BatchScheduler {
 }
 
 fn begin_execution(job: &dyn Job, cfg: &SchedCfg) {
+
     let _ = last_panic_location();
     sim::reset(|s| {
         s.step_cost = cfg.step_cost_ns;
         s.p_timer_ppm = cfg.p_timer_ppm;
         s.step_cap = cfg.step_cap;
         s.shim_rng = SplitMix::derive(cfg.shim_seed, 0x5111);
+        s.check_property = *CHECK_PROPERTY.lock().unwrap();
     });
     ledger::reset();
     let _ = alloc::end_execution();
@@ -182,6 +190,7 @@ fn collect(job: &dyn Job, completed: bool, panic_msg: Option<String>) -> Outcome
     sim::with(|s| {
         s.stats.sim_ns = s.now;
         out.violations.append(&mut s.violations);
+        out.others.append(&mut s.others);
         out.stats = s.stats.clone();
         out.probes = std::mem::take(&mut s.probes);
         out.faults = std::mem::take(&mut s.faults);
